@@ -99,6 +99,9 @@ func c15Step(c *engine.C, idx int, exists map[string]bool, order []string, deep 
 	var menu []op
 	fresh := ""
 	paths := []string{"d/a.txt", "r.txt", "d/s/c.txt", "d/b.txt"}
+	if c.Bool(pfx + "first-file-below-a-directory-with-braces-in-its-name") {
+		paths[0] = "tpl/{name}/a.txt"
+	}
 	if deep {
 		// the first file lies two levels down, so that renames of it have multi-element prefixes and rests
 		paths = []string{"d/s/a.txt", "r.txt", "d/a.txt", "d/b.txt"}
